@@ -17,11 +17,13 @@ DEFAULTS = {
     'compile_value_safe': "~!$&'()*+,;=:@/", 'quote_plus_default_safe': '', 'url_quote_default_safe': '',
     'elements_sep': '/', 'path_tuple_sep': '/', 'star_sep': '/', 'port_sep': ':', 'scheme_sep': '://',
     'kv_sep': '=', 'pair_sep': '&', 'qs_prefix': '?', 'frag_prefix': '#', 'static_subpath_key': 'subpath',
+    'static_external_safe': '/',
 }
 BOOLS = {
     'urlencode_quote_via_is_quote_plus': True, 'route_path_script_quoted': True,
     'resource_path_script_quoted': True, 'static_path_script_quoted': True,
     'current_route_path_script_quoted': True, 'join_elements_key_stringified': False,
+    'static_external_uses_urljoin': True,
 }
 TABLES = {'implied_ports': [('https', '443'), ('http', '80')], 'elided_ports': [('https', '443'), ('http', '80')]}
 
@@ -361,6 +363,33 @@ def extract(src, problems):
         if len(keys) != 1:
             raise Bad('kw[...] assignment in StaticURLInfo.generate')
         vals['static_subpath_key'] = keys[0]
+        # external URL branch: subpath = quote(subpath[, safe=...]); result = urljoin(url, subpath)
+        imp = {}
+        for st in views.tree.body:
+            if isinstance(st, ast.ImportFrom) and st.module == 'urllib.parse':
+                for al in st.names:
+                    imp[al.asname or al.name] = al.name
+        for nm in ('quote', 'urljoin', 'urlparse', 'urlunparse'):
+            if imp.get(nm) != nm:
+                raise Bad('config/views.py no longer imports %s from urllib.parse' % nm)
+        qc = [c for c in _calls(fn, 'quote') if isinstance(c.func, ast.Name)]
+        if len(qc) != 1 or len(qc[0].args) < 1 or not _is_name(qc[0].args[0], 'subpath'):
+            raise Bad('quote(subpath) call in StaticURLInfo.generate')
+        sv = _kwarg(qc[0], 'safe', 1)
+        extra = [k.arg for k in qc[0].keywords if k.arg != 'safe']
+        if extra or len(qc[0].args) > 2:
+            raise Bad('unexpected arguments of quote(subpath)')
+        vals['static_external_safe'] = '/' if sv is None else _resolve(sv, dict(tenv, **uenv))   # '/' is urllib's default
+        res = [n.value for n in ast.walk(fn) if isinstance(n, ast.Assign) and _is_name(n.targets[0], 'result')]
+        if len(res) != 1:
+            raise Bad('result = ... in StaticURLInfo.generate')
+        how = ast.unparse(res[0])
+        if how == 'urljoin(url, subpath)':
+            bools['static_external_uses_urljoin'] = True
+        elif how == 'url + subpath':
+            bools['static_external_uses_urljoin'] = False
+        else:
+            raise Bad('result = %s' % how)
         add = _need(views.find('StaticURLInfo.add'), 'StaticURLInfo.add')
         pats = [n.value for n in ast.walk(add) if isinstance(n, ast.Assign) and _is_name(n.targets[0], 'pattern')]
         if len(pats) != 1 or ast.unparse(pats[0]) != "'%%s*%s' %% name" % keys[0]:
@@ -385,4 +414,7 @@ def coq(vals, bools, tables):
     for k in sorted(tables):
         out.append('Definition %s : list (text * text) := [%s].\n' % (
             k, '; '.join('(%s, %s)' % (F.coq_text(a), F.coq_text(b)) for a, b in tables[k])))
+    import urllib.parse as UP
+    for k in ('uses_relative', 'uses_netloc', 'uses_params'):
+        out.append('Definition %s : list text := %s.\n' % (k, F.coq_texts(list(getattr(UP, k)))))
     return ''.join(out)
